@@ -35,6 +35,7 @@ import (
 
 	"github.com/containerd/containerd/v2/core/remotes/docker"
 	"github.com/containerd/containerd/v2/pkg/reference"
+	"github.com/containerd/log"
 	"github.com/containerd/stargz-snapshotter/estargz"
 	"github.com/containerd/stargz-snapshotter/fs/config"
 	"github.com/containerd/stargz-snapshotter/fs/layer"
@@ -1265,17 +1266,19 @@ func (h *verifH) race(round int) {
 		}
 	}
 	h.out.Count("race-round")
-	h.out.Emit("snap", h.snapAfterRace())
-}
-
-// snapAfterRace: ids are scheduling dependent only through the order of wrapping, which scanWrap
-// fixes to manifest order, so the snapshot is still canonical.
-func (h *verifH) snapAfterRace() string {
-	h.scanWrap(0)
-	return h.snap()
+	// Whatever the interleaving was, the racing lookups must leave the state that one sequential
+	// lookup leaves (ids are given in manifest order by scanWrap): that is what the model replays.
+	h.scanWrap(A)
+	res0 := "err"
+	if c := h.cached(A, 0); c != nil {
+		res0 = fmt.Sprintf("ok %d", c.id)
+	}
+	h.out.Emit("lookup 0 0 1 111", res0)
+	h.out.Emit("snap", h.snap())
 }
 
 func TestVerifC16(t *testing.T) {
+	log.SetLevel("panic") // the store logs every use/release at info level
 	h := newVerifH(t)
 	defer h.close()
 	h.handWritten()
